@@ -375,6 +375,18 @@ class Path:
             bits = int_bits(i.ty)
             a, b = self.ev(i.ops[0]), self.ev(i.ops[1])
             f = fold_bin(op, bits, a, b) if bits else None
+            if f is None and op == "and" and bits:
+                # X & -(cond) (all ones or zero): the branch-free form of  cond ? X : 0
+                for x, y in ((a, b), (b, a)):
+                    yy = y
+                    if yy[0] == "b" and yy[1] == "sub" and yy[3][0] == "c" and yy[3][2] == 0:
+                        inner = yy[4]
+                        while inner[0] == "cast" and inner[1] in ("zext", "sext"):
+                            inner = inner[4]
+                        if inner[0] == "icmp":
+                            f = ("sel", inner, x, ("c", bits, 0))
+                    elif yy[0] == "cast" and yy[1] == "sext" and yy[2] == 1 and yy[4][0] == "icmp":
+                        f = ("sel", yy[4], x, ("c", bits, 0))
             if f is None and op == "xor" and bits == 1:
                 # !cmp on an i1: the opposite comparison
                 for x, y in ((a, b), (b, a)):
@@ -786,6 +798,61 @@ def field_of(ptr, fn, module):
         else:
             s += ("." if s else "") + c
     return sname, s
+
+
+def expand_selects(p, max_sel=3):
+    """Paths equivalent to p in which every ('sel', c, a, b) that occurs in a stored value, a condition or the returned value is
+    decided: one copy per truth assignment of the distinct select conditions (at most 2^max_sel), with the condition added to
+    the path's conditions and the select replaced by the chosen operand.  [p] itself if there is no select (or too many)."""
+    import copy
+
+    def sels(x, out):
+        if isinstance(x, tuple):
+            if x and x[0] == "sel":
+                out.add(x[1])
+            for y in x:
+                sels(y, out)
+    cs = set()
+    for c, t, i in p.conds:
+        sels(c, cs)
+    for e in p.events:
+        if e.kind in ("store", "rmw", "cmpxchg"):
+            sels(e.val, cs)
+            sels(e.ptr, cs)
+    sels(p.ret, cs)
+    cs = sorted(cs, key=str)
+    if not cs or len(cs) > max_sel:
+        return [p]
+
+    def subst(x, truth):
+        if not isinstance(x, tuple):
+            return x
+        if x and x[0] == "sel" and x[1] in truth:
+            return subst(x[2] if truth[x[1]] else x[3], truth)
+        y = tuple(subst(z, truth) for z in x)
+        if y and y[0] == "b" and len(y) == 5 and y[3][0] == "c" and y[4][0] == "c":
+            f = fold_bin(y[1], y[2], y[3], y[4])
+            return f if f is not None else y
+        if y and y[0] == "b" and len(y) == 5 and y[1] in ("sub", "add", "or", "xor") and y[4][0] == "c" and y[4][2] == 0:
+            return y[3]
+        return y
+    out = []
+    import itertools
+    for vals in itertools.product((True, False), repeat=len(cs)):
+        truth = dict(zip(cs, vals))
+        q = copy.copy(p)
+        q.conds = [(subst(c, truth), t, i) for c, t, i in p.conds] + [(c, truth[c], None) for c in cs]
+        q.cond_pos = list(p.cond_pos) + [0] * len(cs)
+        evs = []
+        for e in p.events:
+            e2 = copy.copy(e)
+            e2.val = subst(e.val, truth) if e.val is not None else None
+            e2.ptr = subst(e.ptr, truth) if e.ptr is not None else None
+            evs.append(e2)
+        q.events = evs
+        q.ret = subst(p.ret, truth) if p.ret is not None else None
+        out.append(q)
+    return out
 
 
 def is_assert_fail_path(p):
